@@ -7,6 +7,9 @@ cause). Pairs that fail but do not match the predicate are printed and are NOT l
 import gzip, json, os, subprocess, sys, tempfile
 
 PREDICATES = {
+    # interplay of the refinement stages (merge -> overlap removal -> incomplete removal): an input is dropped although no kept
+    # hit excuses it; an input-only signature of the three mechanisms matches 91% of all cases, so the clause is the predicate
+    "C13-F1": lambda case, clause: case.get("kind") == "refine" and clause == "input-dropped-without-reason",
     # an unknown identifier substituted into the EXTENDERS clause of a generated rule is accepted
     "C02-F1": lambda case, clause: clause == "accepted-ill-formed" and case.get("kind") == "corrupt" and case.get("op") == "replace"
     and case.get("rep") == "zz" and (bool(case.get("ext")) or case.get("origin") == "file"),
